@@ -79,3 +79,7 @@ N("c08-n-cycle-always-cp", "C08", IT, "cycle", "    if not saved:\n        await
 # from seeded change C08/c (round 2)
 M("c08-event-adapter-wait-fast-path", "C08", SYNC, "EventAdapter.wait", "        await self._event.wait()", "        if self._internal_event is None and self._is_set:\n            await checkpoint_if_cancelled()\n            return\n\n        await self._event.wait()", ["R08-a"])
 M("c08-lock-adapter-aenter-nowait", "C08", SYNC, "LockAdapter.__aenter__", "        await self._lock.acquire()", "        self._lock.acquire_nowait()", ["R08-a"])
+
+# from seeded change C08/f (round 3)
+M("c08-tee-fork-inherits-yielded-flag", "C08", "itertools.py", "_TeeAsyncIterator.__init__",
+  "            self._link = iterable._link\n", "            self._link = iterable._link\n            self._element_yielded = iterable._element_yielded\n            return\n", ["R08-b"])
